@@ -103,6 +103,10 @@ def gen_cases(tier: str, seed: int):
             elif x < 0.45:
                 nm = r.choice(pool)
                 steps.append(["unset", conn, cur, r.choice([nm, nm.upper(), nm.lower()])])
+            elif x < 0.47:
+                nm = r.choice(pool)
+                a, b = r.sample(range(len(VALUES)), 2)
+                steps.append(["set_flip", conn, cur, nm, a, b])
             elif x < 0.50:
                 nm = r.choice(pool)
                 steps.append(["script_set_use", conn, cur, r.choice([nm, nm.upper(), nm.lower()]), r.randrange(len(VALUES))])
@@ -273,6 +277,23 @@ def run_case(case: dict, env: core.Env) -> None:
                 if o2["ok"]:
                     env.witness("C15/other-connection-sees-variable", f"conn {oc} SELECT ${name} -> {o2['rows']}")
                     return
+        elif kind == "set_flip":
+            # SET to a, to b, and to a again with the very text of the first statement: the last SET counts
+            name, (ca_, sa, pa), (cb_, sb, pb) = step[3], VALUES[step[4]], VALUES[step[5]]
+            first = f"SET {name} = {sa}"
+            for stmt in (first, f"SET {name} = {sb}", first):
+                o = core.run_stmt(cur, stmt)
+                if not o["ok"]:
+                    env.witness(f"C15/set/rejected/{ca_}/{o['exc']['cls']}", f"{stmt}: {o['exc']}")
+                    return
+            model[ci][name.upper()] = (ca_, pa)
+            max_defined = max(max_defined, len(model[ci]))
+            o = core.run_stmt(curs[ci][1 - ki], f"SELECT ${name}")
+            env.count("cmp_use")
+            compared += 1
+            if not o["ok"] or o["rows"] != [(pa,)]:
+                env.witness(f"C15/use/wrong-value/{ca_}/after-same-set-text-again", f"{first}; SET .. = {sb}; {first}; SELECT ${name} -> {o.get('rows') or o.get('exc')} expected {pa!r}")
+                return
         elif kind == "script_set_use":
             # a script that defines a variable and uses it further down: statements run (and resolve variables) in order
             name, (vcls, vsql, vpy) = step[3], VALUES[step[4]]
